@@ -625,7 +625,16 @@ class World:
                     self.twin = _copy.deepcopy(self)  # a copy taken while construction is still in progress
 
                 ns["__post_init__"] = __post_init__
-            if c.get("user_new"):
+            if c.get("user_new") == "super":
+                # the cooperative form: defer to whatever __new__ comes next in the MRO
+                def __new__(cls, *args, _name=c["name"], **kwargs):
+                    nxt = super(self.classes[_name], cls).__new__
+                    inst = nxt(cls) if nxt is object.__new__ else nxt(cls, *args, **kwargs)
+                    object.__setattr__(inst, f"made_by_{_name}_new", True)
+                    return inst
+
+                ns["__new__"] = __new__
+            elif c.get("user_new"):
                 def __new__(cls, *args, **kwargs):
                     inst = object.__new__(cls)
                     object.__setattr__(inst, "made_by_user_new", True)
@@ -645,7 +654,18 @@ class World:
                 ns["__annotations__"] = ann
             ns["__module__"] = "vf.generated"
             ns["__qualname__"] = c["name"]
-            cls = type(c["name"], tuple(self.classes[b] for b in c["bases"]), ns)
+            bases = [self.classes[b] for b in c["bases"]]
+            if c.get("new_mixin"):
+                # an unrelated plain base class that defines __new__ (placed before or after the other bases)
+                mixin = _make_new_mixin(c["name"])
+                if c["new_mixin"] == "first":
+                    bases = [mixin] + bases
+                elif c["new_mixin"] == "after_plain":
+                    # ... behind another unrelated plain base that has no __new__ of its own
+                    bases = bases + [type("PlainBase", (), {"__module__": "vf.generated"}), mixin]
+                else:
+                    bases = bases + [mixin]
+            cls = type(c["name"], tuple(bases), ns)
             if c["kind"] == "spec":
                 opts = dict(c.get("opts") or {})
                 eager = desc.get("eager", False) if c["name"] not in ("U", "N", "V") else True
@@ -738,6 +758,17 @@ def apply_preparer(how, v):
     if how == "bad_if_5":
         return "BAD" if v == 5 and not isinstance(v, bool) else v
     raise AssertionError(how)
+
+
+def _make_new_mixin(owner_name):
+    class NewMixin:
+        def __new__(cls, *args, **kwargs):
+            nxt = super(NewMixin, cls).__new__
+            inst = nxt(cls) if nxt is object.__new__ else nxt(cls, *args, **kwargs)
+            object.__setattr__(inst, f"stamped_by_mixin_of_{owner_name}", True)
+            return inst
+
+    return NewMixin
 
 
 def build_world(desc):
